@@ -14,6 +14,7 @@ disagrees on its own (or that modifies its operands), whose operator and operand
 from __future__ import annotations
 
 import concurrent.futures as cf
+import json
 import multiprocessing as mp
 import os
 import time
@@ -42,7 +43,12 @@ def _part(args):
 
     work = Path(work)
     t0 = time.time()
-    r = run_tlc("FuncAlgebra", cfg_text, work, workers=1, timeout=timeout, coverage=False, deadlock=False)
+    os.environ.setdefault("VERIF_TLC_HEAP", "3g")  # several JVMs run side by side; each needs little memory
+    for attempt in (1, 2):
+        r = run_tlc("FuncAlgebra", cfg_text, work, workers=1, timeout=timeout, coverage=False, deadlock=False)
+        if r.rc == 0 or r.violated or r.error or attempt == 2:
+            break
+        # the JVM died without a TLC diagnostic (killed from outside / out of memory): try once more
     out = {"distinct": r.distinct, "generated": r.generated, "depth": r.depth, "wall_tlc": round(time.time() - t0, 2),
            "error": None, "violated": r.violated, "viol": [], "n_cases": 0, "n_rejects": 0, "n_trees": 0,
            "samples": [], "ops": {}, "n_diag": 0}
@@ -76,6 +82,16 @@ def _part(args):
         elif v[0] == "REJECT":
             out["n_rejects"] += 1
             out["viol"] += rep.check_reject(v[1])
+    # many instances share a signature (same operator / operand kinds at other points): ship each signature
+    # once with its number of instances and the detail of the first one
+    grouped: dict[str, list] = {}
+    for clause, sig, detail in out["viol"]:
+        key = json.dumps(sig, sort_keys=True, default=str)
+        if key in grouped:
+            grouped[key][3] += 1
+        else:
+            grouped[key] = [clause, sig, detail, 1]
+    out["viol"] = list(grouped.values())
     out["n_trees"] = len(trees)
     out["n_diag"] = rep.n_diag
     out["wall_replay"] = round(time.time() - t1, 2)
@@ -84,11 +100,13 @@ def _part(args):
 
 def run(ck: Check):
     if ck.thorough:
-        plan = dict(full=2, maxd=3, mod=211, wide=False)
-        nparts, nproc, timeout = 16, 8, 1700
+        # every tree of depth <= 2, all operators over a sample of them (depth 3); then the wide parameter
+        # variants (more constants, frozen inputs, matrices, a 4x4x4 lattice for 3 inputs) to depth 1 + sample
+        plans = [(dict(full=2, maxd=3, mod=401, wide=False), 16), (dict(full=1, maxd=2, mod=11, wide=True), 4)]
+        nproc, timeout = 8, 1750
     else:
-        plan = dict(full=1, maxd=2, mod=23, wide=False)
-        nparts, nproc, timeout = 6, 6, 170
+        plans = [(dict(full=1, maxd=2, mod=23, wide=False), 6)]
+        nproc, timeout = 6, 170
     # ---- 1. the specification's own properties incl. the finite-difference self-check of its
     #         differentiation rules (every tree of depth <= 1, wide parameter variants in thorough)
     r = ck.tlc("FuncAlgebra", cfg(full=1, maxd=1, mod=1, seed=ck.seed, nparts=1, part=0, wide=ck.thorough, stencil=True),
@@ -96,9 +114,10 @@ def run(ck: Check):
     ck.extra["stencil_checked_instances"] = sum(1 for ln in r.out.splitlines() if ln.startswith('<< "CASE"'))
     # ---- 2. enumeration + replay, split over parallel TLC runs / worker processes
     jobs = []
-    for p in range(nparts):
-        c = cfg(seed=ck.seed, nparts=nparts, part=p, stencil=False, **plan)
-        jobs.append((str(ck.work / f"part{p}"), c, timeout, True))
+    for k, (plan, nparts) in enumerate(plans):
+        for p in range(nparts):
+            c = cfg(seed=ck.seed, nparts=nparts, part=p, stencil=False, **plan)
+            jobs.append((str(ck.work / f"plan{k}-part{p}"), c, timeout, True))
     ctx = mp.get_context("fork")
     with cf.ProcessPoolExecutor(max_workers=nproc, mp_context=ctx) as ex:
         results = list(ex.map(_part, jobs))
@@ -119,8 +138,9 @@ def run(ck: Check):
             ops[k] = ops.get(k, 0) + v
         for s in o["samples"]:
             ck.sample(s)
-        for clause, sig, detail in o["viol"]:
-            ck.violation(clause, sig, detail)
+        for clause, sig, detail, count in o["viol"]:
+            for _ in range(count):
+                ck.violation(clause, sig, dict(detail, instances_with_this_signature_in_part=count))
     if n_cases == 0 or n_rej == 0:
         raise MachineryError("vacuity: no CASE / REJECT instance printed by TLC")
     from . import c10_build
@@ -130,7 +150,7 @@ def run(ck: Check):
     ck.traces = n_cases + n_rej
     ck.extra.update({"trees": n_trees, "instances": n_cases, "reject_instances": n_rej,
                      "instances_per_root_operator": dict(sorted(ops.items())), "diagnosed_instances": n_diag,
-                     "plan": dict(plan, nparts=nparts)})
+                     "plans": [dict(pl, nparts=n) for pl, n in plans]})
     ck.exhaustive = True  # every instance of the bounded model printed by TLC is replayed
     ck.assumptions += [
         "exact-arithmetic slice: integer lattice points, dyadic coefficients, divisors +-2^j, so that == is a legitimate oracle",
